@@ -13,6 +13,7 @@ REQUIRED_THEOREMS = [
     'OpusProps.C01SilkApi.msToLR_outputs_int16', 'OpusProps.C01SilkApi.cfgChan_configures',
     'OpusProps.C01SilkApi.nSamplesOut_is_duration', 'OpusProps.C01SilkApi.tmp_extents_in_bounds',
     'OpusProps.C01SilkApi.silkDecode_contract', 'OpusProps.C01SilkApi.silkDecode_history',
+    'OpusProps.C01SilkApi.silkDecode_accesses_in_bounds',
 ]
 RULE = ('random call histories through the real opus_decode / opus_decode_float at all five API rates x {1,2} output channels on '
         'packets of a real encoder whose bandwidth (NB/MB/WB = 8/12/16 kHz internal, SWB/FB hybrid), channel count, frame duration '
@@ -41,14 +42,12 @@ ASSUMPTIONS = [
 ]
 TRUSTED = ['OpusModel/SilkApi.lean is a hand transcription of silk/dec_API.c:89-431, silk/decoder_set_fs.c:35-107, '
            'silk/stereo_MS_to_LR.c:35-85, silk/init_decoder.c:43-83; supported by the silkapi tie on reachable states']
-UNPROVED = ['`every access recorded in Run.ac is in bounds` as ONE theorem about silkDecode: proved are the samplesOut1_tmp extents '
-            '(tmp_extents_in_bounds, per configured channel) and that samplesOut has exactly nSamplesOut*nChannelsAPI elements '
-            '(silkDecode_contract: Run.out.length); the strided samplesOut write records, the samplesOut2_tmp extent and the index '
-            'bounds of VAD_flags / LBRR_flags / silk_LBRR_flags_iCDF_ptr / mult_tab (all recorded in Run.ac) are evaluated by the '
-            'driver on every explored call (answer BOUNDS) but not proved for all states',
-            '`samplesOut written exactly on [0, nSamplesOut*nChannelsAPI)` is proved as the length of the model output list; that no '
-            'slot keeps the sentinel (every slot is written) is checked by the tie (hash over a sentinel-filled buffer), not proved',
-            'DecSkel OracleOk.silk third field (ec_tell >= 1 after a non-lost call) is a range-decoder fact, not discharged here']
+UNPROVED = ['`samplesOut written exactly on [0, nSamplesOut*nChannelsAPI)`: proved are that every strided samplesOut write record lies inside '
+            '[0, nSamplesOut*nChannelsAPI) (silkDecode_accesses_in_bounds) and that the model output has exactly that many elements '
+            '(silkDecode_contract); that no slot keeps the sentinel (every slot IS written) is checked by the tie (hash over a '
+            'sentinel-filled buffer + highest slot written), not proved',
+            'DecSkel OracleOk.silk third field (ec_tell >= 1 after a non-lost call) is a range-decoder fact, not discharged here',
+            'tail_accs (OpusProofs/SilkApiAccs2.lean) is one large case analysis elaborated with maxHeartbeats 1000000']
 LEVEL_TEXT = ('proof over an executable model of the SILK decoder control layer with contract-bound oracles for silk_decode_frame, '
               'silk_resampler and the symbol reads: silk_decoder_set_fs establishes the rate configuration for every legal '
               '(fs_kHz, API rate, nb_subfr) from a fresh or previously configured channel; silk_InitDecoder / silk_ResetDecoder '
@@ -62,7 +61,9 @@ LEVEL_TEXT = ('proof over an executable model of the SILK decoder control layer 
               'layer passes (incl. the packet protocol) and oracles within contract, silk_Decode reaches no assertion, takes no error '
               'exit, returns 0, sets nSamplesOut = nb_subfr*5 ms*Fs_API (nb_subfr in {2,4}), produces exactly nSamplesOut*nChannelsAPI '
               'output samples and preserves the invariant — i.e. C01\'s oracle contract OracleOk.silk (fields 1, 2) and the EvOk extent '
-              'as a theorem; lifted by list induction to every history of decode / init / reset calls (silkDecode_history)')
+              'as a theorem; lifted by list induction to every history of decode / init / reset calls (silkDecode_history); and every array '
+              'access the call records (flag arrays, iCDF pointer table, mult_tab, samplesOut1_tmp, samplesOut2_tmp, resampler 1 ms '
+              'precondition, strided samplesOut writes) is in bounds (silkDecode_accesses_in_bounds)')
 LEVEL_NOTE = ('trusted: Lean kernel; oracle contracts (monitored by the harness wrappers); the correspondence harness (#include of '
               'silk/dec_API.c with the callees renamed to recording wrappers, driven through the real opus_decode*) and line protocol; '
               'C int modelled as unbounded Int with explicit wrap32 / sext16 / sat16 in the MS->LR arithmetic')
